@@ -133,7 +133,12 @@ pub fn user_key(i: u32) -> Keys {
     let mut b = [0x42u8; 32];
     b[0] = 1;
     b[28..].copy_from_slice(&(i + 1).to_be_bytes());
-    let sk = SecretKey::from_slice(&b).unwrap();
+    let mut sk = SecretKey::from_slice(&b).unwrap();
+    if i == 3 {
+        // user 3 holds the negation of user 1's key: the two public keys share their x coordinate and differ only in
+        // the parity byte, so anything keyed by less than the whole 33 bytes confuses the two users
+        sk = user_key(1).sk.negate();
+    }
     Keys { sk, pk: PublicKey::from_secret_key(&Secp256k1::new(), &sk) }
 }
 
@@ -178,6 +183,8 @@ pub struct TowerSys {
     pub blobs: HashMap<Vec<u8>, BlobSpec>,
     pub uuid_of: HashMap<Vec<u8>, (u32, u32)>,
     pub users_seen: BTreeSet<u32>,
+    /// values found in the database that do not fit the type the tower reads them back into
+    pub db_anomalies: Vec<String>,
     pub dead: bool,
     /// when set, requests travel through the real HTTP API (JSON over TCP -> warp -> gRPC -> InternalAPI)
     pub http: Option<std::sync::Arc<crate::httpfront::HttpFront>>,
@@ -362,6 +369,7 @@ impl TowerSys {
             blobs: HashMap::new(),
             uuid_of: HashMap::new(),
             users_seen: BTreeSet::new(),
+            db_anomalies: vec![],
             dead: false,
             http: None,
             last_http: None,
@@ -934,7 +942,20 @@ impl TowerSys {
             while let Ok(Some(r)) = rows.next() {
                 let id: Vec<u8> = r.get(0).unwrap();
                 let pk = PublicKey::from_slice(&id).unwrap();
-                users.insert(self.user_name(&pk), (r.get(1).unwrap(), r.get(2).unwrap(), r.get(3).unwrap()));
+                // the tower reads these columns back as u32: a value outside that range is reported, and shown as a
+                // number no u32 computation of the tower produces for these histories
+                let mut col = |i: usize, name: &str| -> u32 {
+                    let v: i64 = r.get(i).unwrap();
+                    match u32::try_from(v) {
+                        Ok(x) => x,
+                        Err(_) => {
+                            self.db_anomalies.push(format!("users.{name} = {v} does not fit u32"));
+                            u32::MAX - 1
+                        }
+                    }
+                };
+                let row = (col(1, "available_slots"), col(2, "subscription_start"), col(3, "subscription_expiry"));
+                users.insert(self.user_name(&pk), row);
             }
         }
         let mut appts = BTreeMap::new();
